@@ -361,6 +361,14 @@ theorem compS_targets (cx : Ctx) : ∀ (s : Stmt) (lp : LoopCtx) (st : St), FtOK
       simp only [compS]
       exact (TIn.append_same (TIn.of_targets_nil _ (dropItems_targets _)) (TIn.of_expr (compE_targets cx _ e .val _))).snoc_ins _
         (by intro l h; cases h)
+  | ret2 e1 e2 =>
+    intro lp st _; simp only [compS]
+    exact (TIn.append_same (TIn.append_same (TIn.of_targets_nil _ (dropItems_targets _)) (TIn.of_expr (compE_targets cx _ e2 .val _)))
+      (TIn.of_expr (compE_targets cx _ e1 .val _))).snoc_ins _ (by intro l h; cases h)
+  | define2 x y e =>
+    intro lp st _; simp only [compS]
+    exact TIn.append_same (TIn.append_same (TIn.append_same (TIn.of_expr (compE_targets cx _ e .val _))
+      (TIn.of_targets_nil _ rfl)) (TIn.of_targets_nil _ (storeVar_targets _ _ _))) (TIn.of_targets_nil _ (storeVar_targets _ _ _))
   | brk =>
     intro lp st _; simp only [compS]
     exact brk_targets (findBrk none lp 0) (fun d e h => findBrk_ext h)
@@ -718,12 +726,12 @@ theorem allowed_ftOK : ∀ (s : Stmt) (ls : Sigs), Allowed ls s → FtOK s
   | .caseS _ _ _ _ _, _, h => by simp [Allowed] at h
   | .defaultS _, _, h => by simp [Allowed] at h
   | .skip, _, _ | .define _ _, _, _ | .assign _ _, _, _ | .opAssign _ _ _, _, _ | .inc _, _, _ | .dec _, _, _
-  | .varDecl _ _ _, _, _ | .exprStmt _, _, _ | .discard _, _, _ | .panicS _, _, _ | .ret _, _, _ | .brk, _, _ | .cont, _, _
+  | .varDecl _ _ _, _, _ | .exprStmt _, _, _ | .discard _, _, _ | .panicS _, _, _ | .ret _, _, _ | .ret2 _ _, _, _ | .define2 _ _ _, _, _ | .brk, _, _ | .cont, _, _
   | .brkL _, _, _ | .contL _, _, _ => trivial
   | .labeled _ .skip, _, h | .labeled _ (.seq _ _), _, h | .labeled _ (.define _ _), _, h | .labeled _ (.assign _ _), _, h
   | .labeled _ (.opAssign _ _ _), _, h | .labeled _ (.inc _), _, h | .labeled _ (.dec _), _, h | .labeled _ (.varDecl _ _ _), _, h
   | .labeled _ (.exprStmt _), _, h | .labeled _ (.discard _), _, h | .labeled _ (.panicS _), _, h | .labeled _ (.ite _ _ _ _), _, h
-  | .labeled _ (.ret _), _, h | .labeled _ .brk, _, h | .labeled _ .cont, _, h | .labeled _ (.block _), _, h
+  | .labeled _ (.ret _), _, h | .labeled _ (.ret2 _ _), _, h | .labeled _ (.define2 _ _ _), _, h | .labeled _ .brk, _, h | .labeled _ .cont, _, h | .labeled _ (.block _), _, h
   | .labeled _ (.labeled _ _), _, h | .labeled _ (.brkL _), _, h | .labeled _ (.contL _), _, h
   | .labeled _ (.caseS _ _ _ _ _), _, h | .labeled _ (.defaultS _), _, h => by simp [Allowed] at h
 theorem allowedCl_ftOK : ∀ (cl : Stmt) (ls : Sigs), AllowedCl ls cl → FtOK cl
@@ -734,7 +742,7 @@ theorem allowedCl_ftOK : ∀ (cl : Stmt) (ls : Sigs), AllowedCl ls cl → FtOK c
     exact ⟨allowed_ftOK b ls h.1, allowedCl_ftOK rest ls h.2.1, h.2.2⟩
   | .seq _ _, _, h | .define _ _, _, h | .assign _ _, _, h | .opAssign _ _ _, _, h | .inc _, _, h | .dec _, _, h
   | .varDecl _ _ _, _, h | .exprStmt _, _, h | .discard _, _, h | .panicS _, _, h | .ite _ _ _ _, _, h
-  | .loop _ _ _ _, _, h | .ret _, _, h | .brk, _, h | .cont, _, h | .block _, _, h | .labeled _ _, _, h
+  | .loop _ _ _ _, _, h | .ret _, _, h | .ret2 _ _, _, h | .define2 _ _ _, _, h | .brk, _, h | .cont, _, h | .block _, _, h | .labeled _ _, _, h
   | .brkL _, _, h | .contL _, _, h | .switchS _ _ _, _, h => by simp [AllowedCl] at h
 end
 
